@@ -18,7 +18,7 @@ for pid in props:
         "evidence_file": f"/verif/evidence/{pid}.json",
         "replay_cmd_template": f"bin/check {pid} --replay {{path}}",
         "engine": ",".join(sorted({r["engine"] for r in PROPS[pid]["runs"]})),
-        "level_claimed": {"category": "proof", "text": m["text"], "design_ref": m.get("design_ref", "DESIGN.md §5 " + pid)},
+        "level_claimed": {"category": m.get("category", "proof"), "text": m["text"], "design_ref": m.get("design_ref", "DESIGN.md §5 " + pid)},
         "level_note": m["note"],
         "technique": m["technique"],
     })
